@@ -167,18 +167,46 @@ func sigComments(src string, before, after []string) string {
 	for i < len(before) && i < len(after) && before[i] == after[i] {
 		i++
 	}
-	what := "moved"
-	if len(after) < len(before) {
+	count := func(xs []string) map[string]int {
+		m := map[string]int{}
+		for _, x := range xs {
+			m[x]++
+		}
+		return m
+	}
+	cb, ca := count(before), count(after)
+	same := len(cb) == len(ca)
+	for k, n := range cb {
+		if ca[k] != n {
+			same = false
+		}
+	}
+	what := "replaced" // same number of comments, but some text lost and some other duplicated
+	switch {
+	case same:
+		what = "moved"
+	case len(after) < len(before):
 		what = "lost"
-	} else if len(after) > len(before) {
+	case len(after) > len(before):
 		what = "duplicated"
 	}
 	ctx := ""
 	if i < len(before) {
 		if p := strings.Index(src, "#"+before[i]); p >= 0 {
-			// the source line that carries the comment: its first token and what kind of things it holds
+			// the source line that carries the comment; for a comment on its own line, the nearest
+			// earlier line that holds code: its first token(s) and what kind of things it holds
 			ls := strings.LastIndexByte(src[:p], '\n') + 1
 			line := src[ls:p]
+			own := ""
+			for strings.TrimSpace(line) == "" || strings.HasPrefix(strings.TrimSpace(line), "#") {
+				own = "own line after "
+				if ls == 0 {
+					break
+				}
+				le := ls - 1
+				ls = strings.LastIndexByte(src[:le], '\n') + 1
+				line = src[ls:le]
+			}
 			first := strings.Fields(normText(line))
 			if len(first) > 0 {
 				ctx = first[0]
@@ -192,7 +220,46 @@ func sigComments(src string, before, after []string) string {
 			if strings.Contains(line, "$(") || strings.Contains(line, "<(") || strings.Contains(line, "`") {
 				ctx += " +subst"
 			}
+			ctx = own + ctx
 		}
 	}
 	return fmt.Sprintf("%s on a line starting %q", what, ctx)
+}
+
+// posClass classifies what precedes a position on its line and the way the previous line ended:
+// the root causes of line/column disagreements are about those, not about the node kind.
+func posClass(src []byte, off int) string {
+	if off > len(src) {
+		off = len(src)
+	}
+	ls := 0
+	for i := off - 1; i >= 0; i-- {
+		if src[i] == '\n' {
+			ls = i + 1
+			break
+		}
+	}
+	prev := "start"
+	switch {
+	case ls >= 3 && string(src[ls-3:ls]) == "\\\r\n":
+		prev = "backslash-CRLF"
+	case ls >= 2 && string(src[ls-2:ls]) == "\\\n":
+		prev = "backslash-LF"
+	case ls >= 2 && string(src[ls-2:ls]) == "\r\n":
+		prev = "CRLF"
+	case ls >= 1:
+		prev = "LF"
+	}
+	on := ""
+	for _, b := range src[ls:off] {
+		switch {
+		case b == 0 && !strings.Contains(on, "NUL"):
+			on += "+NUL"
+		case b == '\r' && !strings.Contains(on, "CR"):
+			on += "+CR"
+		case b >= 0x80 && !strings.Contains(on, "multibyte"):
+			on += "+multibyte"
+		}
+	}
+	return "line after " + prev + on
 }
